@@ -126,4 +126,30 @@ def abortFor (atCommitHead : Bool) (txid : Nat) : TxRes → Option AbortReason
   | .invalid _ => errorBranch atCommitHead true txid
   | .fatal _ => errorBranch atCommitHead false txid
 
+/-- Loading the fee recipient's account. `feeFault = some e`: the database cannot serve that
+    account (error `e`). `replayPreload` is `replay_uncommitted_suffix` after the repair of finding
+    F8, and what `parallel_execute_inner` does before it starts its workers: the account is loaded
+    at the boundary, before the first transaction. -/
+def replayPreload (feeFault : Option Nat) (txs : List TxRes) : List Outcome × Option (Nat × Nat) :=
+  match feeFault with
+  | some e => ([], some (0, e))
+  | none => replay txs
+
+/-- The sequential path BEFORE the repair: nothing is loaded up front; the first transaction that
+    is executed and loads the fee recipient (`needs`) hits the fault. An invalid transaction is
+    rejected before anything else is loaded. -/
+def replayNoPreload (feeFault : Option Nat) (needs : Nat → Bool) : Nat → List TxRes →
+    List Outcome × Option (Nat × Nat)
+  | _, [] => ([], none)
+  | i, .ok r :: rest =>
+      match feeFault, needs i with
+      | some e, true => ([], some (0, e))
+      | _, _ =>
+        (.executed r :: (replayNoPreload feeFault needs (i + 1) rest).1,
+          (replayNoPreload feeFault needs (i + 1) rest).2.map fun p => (p.1 + 1, p.2))
+  | i, .invalid reason :: rest =>
+      (.skipped reason :: (replayNoPreload feeFault needs (i + 1) rest).1,
+        (replayNoPreload feeFault needs (i + 1) rest).2.map fun p => (p.1 + 1, p.2))
+  | _, .fatal err :: _ => ([], some (0, err))
+
 end Grevm.Commit
